@@ -124,6 +124,19 @@ void tsmCase(long kk, uint64_t seed, bool th, Result& res) {
     if (e.pot > boundOf(KEY + ".pot.smooth", res)) res.fail("c05:tsm-potential-error-above-bound", res.desc + " err=" + vh::str(e.pot));
     if (e.force > boundOf(KEY + ".force.smooth", res)) res.fail("c05:tsm-force-error-above-bound", res.desc + " err=" + vh::str(e.force));
     res.ev("tsm-runs"); res.ev("targets-compared", (long long)which.size());
+    {
+        // same input on the OpenMP target/source executor with another grouping: equal to rounding
+        TreeTsm<SpaceN> tree2(cfg, src, tgt, (kk % 2) ? 1L : 10000000L, r.coin());
+        const int threads = int(r.pick(std::vector<int>{1, 2, 4, 16}));
+        if (getenv("VH_FORCE_WAVE")) vsched::configure(std::max(4, threads), vsched::WAVE_RANDOM, 7); else vsched::configure(threads, int(r.below(vsched::NB_POLICIES)), 7);
+        { auto algo = std::make_unique<TbfOpenmpAlgorithmTsm<Real, Kernel<SpaceN>, SpaceN>>(cfg, Kernel<SpaceN>(cfg, &mk()), 2); algo->execute(tree2); }
+        std::vector<std::array<Real, 4>> got2(tgt.size());
+        tree2.applyToAllLeavesTarget([&](auto& hdr, const long* idx, auto&&, auto&& rhs) { for (long p = 0; p < hdr.nbParticles; ++p) for (int v = 0; v < 4; ++v) got2[idx[p]][v] = rhs[v][p]; });
+        const Errs d = diffNormalised<Real>(got, got2, which, R);
+        recordMax(res, KEY + ".inv", std::max(d.pot, d.force));
+        if (std::max(d.pot, d.force) > boundOf(KEY + ".inv", res)) res.fail("c05:tsm-result-depends-on-grouping-or-executor", res.desc + " OpenMP target/source executor, diff=" + vh::str(std::max(d.pot, d.force)));
+        res.ev("invariance-pairs"); res.ev("tsm-openmp-runs");
+    }
     res.sig = KEY + ",tsm,H" + vh::str(H) + "," + vh::str(kk); res.nontrivial = H >= 3;
 }
 
